@@ -36,8 +36,9 @@ CLAIMED["C14"] = dict(
     design="8 C14")
 CLAIMED["C15"] = dict(
     text="Tokenizer state machine with spans in Gallina; theorems for every classifier: whitespace at a top-level token boundary changes no token "
-         "and no parsed formula; backtick names are one NAME token with exactly the quoted characters; spans are ordered and disjoint (given no empty "
-         "top-level quote, a recorded finding). ASCII classes and the tokenizer's literal character sets are regenerated from /repo each run and "
+         "and no parsed formula; backtick names are one NAME token with exactly the quoted characters; inside ANY quote context a step appends exactly the "
+         "character read (or closes the outermost region and emits the token unchanged); spans are ordered and disjoint for every accepted input "
+         "(unconditional since the repair of the empty quoted region). ASCII classes and the tokenizer's literal character sets are regenerated from /repo each run and "
          "tied by theorem; tokens with spans are compared on random strings; metamorphic whitespace / name / Python-formatting oracles run on the implementation.",
     note="Coq kernel + vm_compute; regex classes of non-ASCII code points and ast.unparse are oracles; span-delimits-text only by oracle/correspondence",
     technique="Coq proof (simulation up to spans, invariants over the character loop) + generated character tables + in-Coq correspondence",
